@@ -129,6 +129,7 @@ type mirror struct {
 	encBuf bytes.Buffer
 	DQ     []DecAns
 	EQ     []EncAns
+	held   map[uint32][][]hpack.HeaderField // decoded header lists of frames still queued, per stream
 }
 
 // DecAns / EncAns are recorded oracle answers.
@@ -157,7 +158,9 @@ func toFields(hf []hpack.HeaderField) []Field {
 	return out
 }
 
-func (m *mirror) block(b []byte) {
+// block: the relay decodes a completed header block (relay.decodeFull); the header list waits, with the
+// queued frame, until the frame is released.
+func (m *mirror) block(b []byte, stream uint32) {
 	hf, err := m.dec.DecodeFull(b)
 	if err != nil {
 		m.DQ = append(m.DQ, DecAns{cp(b), nil})
@@ -165,11 +168,25 @@ func (m *mirror) block(b []byte) {
 	}
 	fs := toFields(hf)
 	m.DQ = append(m.DQ, DecAns{cp(b), &fs})
+	if m.held == nil {
+		m.held = map[uint32][][]hpack.HeaderField{}
+	}
+	m.held[stream] = append(m.held[stream], hf)
+}
+
+// release: a header frame of the stream leaves the queue: its block is encoded now (prepare).
+func (m *mirror) release(stream uint32) {
+	q := m.held[stream]
+	if len(q) == 0 {
+		return
+	}
+	hf := q[0]
+	m.held[stream] = q[1:]
 	m.encBuf.Reset()
 	for _, h := range hf {
 		_ = m.enc.WriteField(h)
 	}
-	m.EQ = append(m.EQ, EncAns{fs, cp(m.encBuf.Bytes())})
+	m.EQ = append(m.EQ, EncAns{toFields(hf), cp(m.encBuf.Bytes())})
 }
 
 // QSum / SSnap / Snap mirror coq/g09/Check.v.
@@ -219,8 +236,11 @@ type StepObs struct {
 	DecS   []*[]Field `json:"-"`
 	Status string     `json:"status"`
 	Err    string     `json:"err,omitempty"`
-	SnapC  Snap       `json:"snap_to_client"`
-	SnapS  Snap       `json:"snap_to_server"`
+	// Inversion: a header block was written towards an endpoint although a block the relay encoded EARLIER
+	// for that endpoint is still queued (HPACK blocks must reach the decoder in encoding order)
+	Inversion bool `json:"hpack_order_inversion,omitempty"`
+	SnapC     Snap `json:"snap_to_client"`
+	SnapS     Snap `json:"snap_to_server"`
 }
 
 // Case is one executed history.
@@ -259,6 +279,9 @@ type Session struct {
 	ep      map[string]*endpoint
 	mir     map[string]*mirror // by the endpoint the relay sends towards
 	tainted bool               // an endpoint has already sent something a conforming endpoint would not send
+	// encoding order of header blocks per relay (by the endpoint it sends towards)
+	encSeq  map[string]int
+	pending map[string]map[uint32][]int // sequence numbers of blocks queued or in flight, per stream
 }
 
 var otherSide = map[string]string{"C": "S", "S": "C"}
@@ -268,6 +291,8 @@ func NewSession() *Session {
 	s := &Session{rig: hook.New(), c: &Case{MC: newMirror(), MS: newMirror()}}
 	s.ep = map[string]*endpoint{"C": newEndpoint(), "S": newEndpoint()}
 	s.mir = map[string]*mirror{"C": s.c.MC, "S": s.c.MS}
+	s.encSeq = map[string]int{}
+	s.pending = map[string]map[uint32][]int{"C": {}, "S": {}}
 	return s
 }
 
@@ -332,18 +357,19 @@ func (s *Session) Do(o Op) bool {
 					if DecoderFollowsSettings {
 						peer.dec.SetMaxDynamicTableSize(x[1])
 					}
-					peer.enc.SetMaxDynamicTableSize(x[1])
 				}
 			}
 		case "headers", "push":
 			me.sendHB = cp(in.Data)
 			if in.EH {
-				rd.block(me.sendHB)
+				rd.block(me.sendHB, in.ID)
+				s.noteEncoded(otherSide[o.From], in.ID)
 			}
 		case "cont":
 			me.sendHB = append(me.sendHB, in.Data...)
 			if in.EH {
-				rd.block(me.sendHB)
+				rd.block(me.sendHB, in.ID)
+				s.noteEncoded(otherSide[o.From], in.ID)
 			}
 		}
 		r := s.rig.Step(o.From == "C", raw, 200000, 5*time.Second)
@@ -363,6 +389,34 @@ func (s *Session) Do(o Op) bool {
 		}
 		if !r.Diverged {
 			st.SnapC, st.SnapS = snapOf(s.rig.Snapshot(true)), snapOf(s.rig.Snapshot(false))
+		}
+		// the mirrors encode the header blocks of the frames that were released, in the order they were
+		// written; for a SETTINGS frame the encoder of the relay sending towards its sender is resized at the
+		// HEADER_TABLE_SIZE entries and frames are released at the INITIAL_WINDOW_SIZE entries, in list order
+		for _, side := range []string{"C", "S"} {
+			fs := st.ToC
+			if side == "S" {
+				fs = st.ToS
+			}
+			relAll := func() {
+				for _, f := range fs {
+					if f.T == "headers" || f.T == "push" {
+						s.mir[side].release(f.ID)
+					}
+				}
+				fs = nil
+			}
+			if side == o.From && in.T == "settings" && r.ReadErr == nil {
+				for _, x := range in.Settings {
+					switch x[0] {
+					case uint32(http2.SettingHeaderTableSize):
+						s.mir[side].enc.SetMaxDynamicTableSize(x[1])
+					case uint32(http2.SettingInitialWindowSize):
+						relAll()
+					}
+				}
+			}
+			relAll()
 		}
 		// visiting order of the map ranges, reconstructed from what was released towards the sender
 		back := st.ToC
@@ -392,6 +446,14 @@ func (s *Session) Do(o Op) bool {
 				var done bool
 				switch f.T {
 				case "headers", "push":
+					if q := s.pending[side][f.ID]; len(q) > 0 {
+						s.pending[side][f.ID] = q[1:]
+						for _, other := range s.pending[side] {
+							if len(other) > 0 && other[0] < q[0] {
+								st.Inversion = true // an earlier-encoded block is still held back
+							}
+						}
+					}
 					e.recvHB, done = cp(f.Data), f.EH
 				case "cont":
 					e.recvHB, done = append(e.recvHB, f.Data...), f.EH
@@ -426,6 +488,11 @@ func (s *Session) Do(o Op) bool {
 		}
 	}
 	return true
+}
+
+func (s *Session) noteEncoded(towards string, stream uint32) {
+	s.encSeq[towards]++
+	s.pending[towards][stream] = append(s.pending[towards][stream], s.encSeq[towards])
 }
 
 // Exec runs the ops against a fresh rig.  flushed: the ops end with the window-opening epilogue.
